@@ -30,6 +30,17 @@
 (*           own gdof)                                                         *)
 (*    PoU    values of all local functions at lattice points ->                *)
 (*           PartitionOfUnity                                                  *)
+(*    Agree  gbasis fields with shared points and with the same points         *)
+(*           replicated per cell -> EvaluationFormsAgree                       *)
+(* The harness records Deriv / Map events in every EVALUATION FORM of the      *)
+(* library (tags xs): points shared by the cells, per-element point arrays     *)
+(* (replicated and genuinely different per cell, several cells at once,        *)
+(* negatively oriented cells included), and under CALL HISTORIES on one        *)
+(* element instance (tags hist): the stencil nodes are visited one after the   *)
+(* other through ONE point buffer overwritten in place, or through two         *)
+(* alternating buffers, for global elements interleaved with calls on another  *)
+(* mesh.  The clauses are the same: the delivered derivative must be the       *)
+(* derivative of the values delivered in that form / history.                  *)
 (* All float observations are Fx limb vectors (Fx.tla); tolerances are the     *)
 (* named constants below.                                                      *)
 (*                                                                             *)
@@ -505,6 +516,29 @@ CompositeInherits(e) ==
 WrapHolds(e) == IF e.wrap = "Vector" THEN VectorInherits(e) ELSE CompositeInherits(e)
 
 \* ---------------------------------------------------------------------------
+\* Agree: e = [spec, N, A, B]  -- gbasis of every local index i on SEVERAL cells (negatively oriented ones included):
+\*   A[i][k] = field records of output k with points shared by the cells,            X of shape (dim, npts)
+\*   B[i][k] = the same with the same points replicated per cell,                    X of shape (dim, ncells, npts)
+\* The two evaluation forms (the two branches of every gbasis) deliver the same fields where the points coincide.
+\* (That the derivative fields are true derivatives in BOTH forms is decided by the Deriv / Map events recorded in
+\* both forms, tags xs = shared | percell | multi.)
+AgreeHarnessWF(e) == SpecWF(e.spec)
+AgreeWF(e) ==
+  /\ Len(e.A) = e.N /\ Len(e.B) = e.N
+  /\ \A i \in DOMAIN e.A : \A k \in DOMAIN e.A[i] : FieldsWF(e.A[i][k])
+  /\ \A i \in DOMAIN e.B : \A k \in DOMAIN e.B[i] : FieldsWF(e.B[i][k])
+AgreeHolds(e) ==
+  LET bits == IF SpecAnyGlobal(e.spec) THEN TolGlobBits ELSE TolMapBits IN
+  \A i \in 1..e.N :
+     /\ Len(e.A[i]) = Len(e.B[i])
+     /\ \A k \in DOMAIN e.A[i] :
+          /\ SameLayout(e.A[i][k], e.B[i][k])
+          /\ \A f \in DOMAIN e.A[i][k] :
+               LET a == e.A[i][k][f].x  b == e.B[i][k][f].x IN
+               /\ Len(a) = Len(b)
+               /\ \A j \in DOMAIN a : FxNearK(a[j], b[j], bits, MagOf(a[j]) + MagOf(b[j]))
+
+\* ---------------------------------------------------------------------------
 \* Dual.  e.how =
 \*  "nodal"  rows = the local DOFs j that have a location, M[r][i] = phi_i(dofloc_rows[r]) (lbasis), X[r] = location
 \*  "flux"   verts (integers, local order, one affine cell), ents = local facets (1-based local vertices),
@@ -644,14 +678,14 @@ PoUWF(e) == \A q \in DOMAIN e.V : Len(e.V[q]) = e.N /\ AllFxSeq(e.V[q]) /\ Moder
 PoUHolds(e) == \A q \in DOMAIN e.V : FxNearK(FxSumAll(e.V[q]), FxInt(1), TolDualBits, e.N * MaxMagSeq(e.V[q]))
 
 \* ---------------------------------------------------------------------------
-EventKinds == {"Deriv", "Map", "Wrap", "Dual", "PoU"}
+EventKinds == {"Deriv", "Map", "Wrap", "Dual", "PoU", "Agree"}
 HarnessWF(e) ==
   /\ e.a \in EventKinds
   /\ CASE e.a = "Deriv" -> DerivHarnessWF(e) [] e.a = "Map" -> MapHarnessWF(e) [] e.a = "Wrap" -> WrapHarnessWF(e)
-       [] e.a = "Dual" -> DualHarnessWF(e) [] e.a = "PoU" -> PoUHarnessWF(e)
+       [] e.a = "Dual" -> DualHarnessWF(e) [] e.a = "PoU" -> PoUHarnessWF(e) [] e.a = "Agree" -> AgreeHarnessWF(e)
 ResultWF(e) ==
   CASE e.a = "Deriv" -> DerivWF(e) [] e.a = "Map" -> MapWF(e) [] e.a = "Wrap" -> WrapWF(e)
-    [] e.a = "Dual" -> DualWF(e) [] e.a = "PoU" -> PoUWF(e)
+    [] e.a = "Dual" -> DualWF(e) [] e.a = "PoU" -> PoUWF(e) [] e.a = "Agree" -> AgreeWF(e)
 
 C09Clauses(e) ==
   IF e.a \notin EventKinds THEN [HarnessInputWellFormed |-> FALSE]
@@ -664,5 +698,6 @@ C09Clauses(e) ==
           [] e.a = "Wrap"  -> [WrapperInherits |-> WrapHolds(e)]
           [] e.a = "Dual"  -> [Duality |-> DualHolds(e)] @@
                               (IF e.how = "nodal" THEN [Drift_DofLocInCell |-> DofLocsInCell(e)] ELSE <<>>)
+          [] e.a = "Agree" -> [EvaluationFormsAgree |-> AgreeHolds(e)]
           [] e.a = "PoU"   -> [PartitionOfUnity |-> PoUHolds(e)])
 ==============================================================================
